@@ -28,7 +28,7 @@ UNIVERSAL = "KNKNTTTTRSRSIIMIQHQHPPPPRRRRLLLLEDEDAAAAGGGGVVVV*Y*YSSSS*CWCLFLF"  
 
 # ----------------------------------------------------------------------------- trees
 class Node:
-    __slots__ = ("name", "kids", "length", "height", "index")
+    __slots__ = ("name", "kids", "length", "height", "index", "rate")
 
     def __init__(self, name=None, kids=None, length=None):
         self.name = name
@@ -36,6 +36,7 @@ class Node:
         self.length = length
         self.height = None
         self.index = None
+        self.rate = None
 
     def is_leaf(self):
         return not self.kids
@@ -58,6 +59,7 @@ class Node:
     def copy(self):
         n = Node(self.name, [k.copy() for k in self.kids], self.length)
         n.height = self.height
+        n.rate = self.rate
         return n
 
 
@@ -672,3 +674,81 @@ def lean_pat(drv, case):
 
 def frac(s: str) -> Fraction:
     return Fraction(s)
+
+
+# ----------------------------------------------------------------------------- C02: rewritings of one case
+def materialise(tree: Node, taxa, seq_order, seqs, base: dict) -> dict:
+    """write down the tree/data held in `tree` (node-attached lengths / heights / rates) and `seqs` for a given
+    taxa order, sequence order and child order: index-addressed vectors are recomputed from the node attributes"""
+    case = {k: base[k] for k in ("datatype", "rooting", "subst", "site", "use_tip_states", "use_ambiguities", "dates")}
+    case.update(taxa=list(taxa), seq_order=list(seq_order), seqs=dict(seqs))
+    n = len(taxa)
+    set_indices(tree, taxa)
+    if base["rooting"] == "time":
+        case["internal_heights"] = [x.height for x in tree.postorder() if not x.is_leaf()]
+        ck = base["clock"]
+        if ck["kind"] == "strict":
+            case["clock"] = dict(ck)
+        else:
+            rates = [None] * (2 * n - 2)
+            for x in tree.postorder():
+                if x is not tree:
+                    rates[x.index] = x.rate
+            case["clock"] = {"kind": "simple", "rates": rates}
+    else:
+        case["clock"] = None
+    case["newick"] = newick(tree)
+    return case
+
+
+def swap_nodes(tree: Node, which: set) -> Node:
+    """copy of the tree with the children of the internal nodes whose post-order rank is in `which` swapped"""
+    t = tree.copy()
+    for r, x in enumerate(y for y in t.postorder() if not y.is_leaf()):
+        if r in which:
+            x.kids.reverse()
+    return t
+
+
+def unrooted_edges(tree: Node):
+    """undirected view with the degree-two root suppressed: (adjacency {id: [(id, length)]}, {id: node})"""
+    adj, nodes = {}, {}
+    a, b = tree.kids
+
+    def add(u, v, ln):
+        adj.setdefault(id(u), []).append((id(v), ln))
+        adj.setdefault(id(v), []).append((id(u), ln))
+        nodes[id(u)], nodes[id(v)] = u, v
+
+    for x in tree.preorder():
+        if x is tree:
+            continue
+        for k in x.kids:
+            add(x, k, k.length)
+    add(a, b, a.length + b.length)
+    return adj, nodes
+
+
+def all_rootings(tree: Node, frac=0.25):
+    """every rooting of the unrooted tree underlying `tree` (2n-3 of them), the root edge split frac/(1-frac)"""
+    adj, nodes = unrooted_edges(tree)
+
+    def build(u, frm, ln):
+        x = nodes[u]
+        if x.is_leaf():
+            return Node(x.name, None, ln)
+        kids = [build(v, u, l2) for (v, l2) in adj[u] if v != frm]
+        return Node(None, kids, ln)
+
+    out, seen = [], set()
+    for u in adj:
+        for v, ln in adj[u]:
+            if (v, u) in seen:
+                continue
+            seen.add((u, v))
+            l1 = ln * frac
+            out.append(Node(None, [build(u, v, l1), build(v, u, ln - l1)]))
+    return out
+
+
+REVERSIBLE = {"JC69", "HKY", "GTR", "GeneralSymmetric", "LG", "WAG", "MG94"}
